@@ -1,11 +1,14 @@
-(** * Model of [linalg/decomposition/cholesky.rs] ([cholesky], [cholesky_solve]) and of
+(** * Model of [linalg/decomposition/cholesky.rs] ([try_cholesky], [cholesky], [cholesky_solve]) and of
     [Matrix::cholesky], [Solve<Vector>::cholesky_solve], [Solve<Matrix>::cholesky_solve]
-    ([linalg/array/matrix.rs]).  Cholesky–Banachiewicz, row by row.
+    ([linalg/array/matrix.rs]).  Cholesky–Banachiewicz, row by row, AFTER the repair of D1: on the
+    diagonal [let d = a[i*n+i] - s; if !(d > 0.) { return None }] (slice form) resp.
+    [assert!(d > 0.)] (Matrix form), so a pivot that is zero, negative or NaN never reaches [sqrt].
 
-    The code is modelled AS IT IS: there is no test of the pivot, so on binary64 a non-positive pivot
-    gives [sqrt(negative) = NaN] (candidate defect D1, which belongs to property C01).  The two forms
-    differ only in the dot product: the slice form multiplies the first [j] entries of rows [j] and [i]
-    ([full = false]), the [Matrix] form the whole rows, whose tails are still zero ([full = true]).
+    [chol_entry] / [chol_row] / [chol_rows] are the PLAIN sweep (no test of the pivot); the checked sweep
+    [try_chol_rows] is defined on top of [chol_entry] and returns exactly the plain sweep's factor when it
+    succeeds ([Proofs/C11_Chol.v]: [try_chol_rows_some]).  The two forms differ only in the dot product:
+    the slice form multiplies the first [j] entries of rows [j] and [i] ([full = false]), the [Matrix]
+    form the whole rows, whose tails are still zero ([full = true]).
     Representation: see [Model/Subst.v].  No proofs in this file. *)
 From Coq Require Import List Arith ZArith Bool.
 From Compute Require Import Base.Ops Base.ListMat Model.Reduce Model.MatMul Model.Subst.
@@ -34,11 +37,42 @@ Section Cholesky.
   Definition chol_rows (full : bool) (A : list (list T)) (n : nat) : list (list T) :=
     fold_left (fun L i => L ++ [chol_row full A L n i]) (seq 0 n) [].
 
-  (** [cholesky(a)]: [assert!(is_symmetric(a))], then the sweep *)
-  Definition cholesky (a : list T) : option (list T) :=
+  (** ** the checked sweep *)
+
+  (** the pivot of row [i]: [let d = a[i*n+i] - s], [s] the dot product of the part [r] of row [i]
+      already computed (entries 0..i-1) with itself (the argument of [sqrt] in [chol_entry] at [j = i]) *)
+  Definition chol_pivot (full : bool) (A : list (list T)) (n i : nat) (r : list T) : T :=
+    sub O (ent z A i i)
+          (if full then dot_raw O (pad n r) (pad n r) else dot_raw O (firstn i r) r).
+
+  (** one entry of row [i]: off the diagonal that of [chol_entry]; on the diagonal
+      [if !(d > 0.) { return None }; l[i*n+i] = d.sqrt()] *)
+  Definition try_chol_step (full : bool) (A L : list (list T)) (n i : nat) (acc : option (list T)) (j : nat)
+    : option (list T) :=
+    let* r := acc in
+    if j =? i then
+      let d := chol_pivot full A n i r in
+      if ltb O z d then Some (r ++ [sqrt O d]) else None
+    else Some (r ++ [chol_entry full A L n i r j]).
+  Definition try_chol_row (full : bool) (A L : list (list T)) (n i : nat) : option (list T) :=
+    let* r := fold_left (try_chol_step full A L n i) (seq 0 (S i)) (Some []) in
+    Some (pad n r).
+  Definition try_chol_rows_step (full : bool) (A : list (list T)) (n : nat) (acc : option (list (list T))) (i : nat)
+    : option (list (list T)) :=
+    let* L := acc in let* row := try_chol_row full A L n i in Some (L ++ [row]).
+  Definition try_chol_rows (full : bool) (A : list (list T)) (n : nat) : option (list (list T)) :=
+    fold_left (try_chol_rows_step full A n) (seq 0 n) (Some []).
+
+  (** [try_cholesky(a)]: outer [None] = panic ([assert!(is_symmetric(a))], [is_square(a).unwrap()]),
+      [Some None] = a pivot is not positive ([return None]) *)
+  Definition try_cholesky (a : list T) : option (option (list T)) :=
     let* n := is_square (length a) in
-    let* _ := guard (is_symmetric_rows O (unflatten a n n) n) in
-    Some (flatten (chol_rows false (unflatten a n n) n)).
+    let M := unflatten a n n in
+    let* _ := guard (is_symmetric_rows O M n) in
+    Some (option_map flatten (try_chol_rows false M n)).
+  (** [cholesky(a) = try_cholesky(a).expect("matrix is not positive definite")] *)
+  Definition cholesky (a : list T) : option (list T) :=
+    let* r := try_cholesky a in r.
 
   (** [cholesky_solve(l, b)]: forward substitution, [transpose(l, n)] (panics for [n = 0]: division
       by zero in [is_matrix]), backward substitution *)
@@ -49,12 +83,13 @@ Section Cholesky.
     let* lt := transpose O l n in
     backward_substitution O lt y.
 
-  (** [Matrix::cholesky]: [assert!(self.is_positive_definite())] (symmetric within EPSILON and no
-      diagonal entry [<= 0]); full-row dot products *)
+  (** [Matrix::cholesky]: [assert!(self.is_positive_definite())] (symmetric within the relative
+      tolerance and no diagonal entry [<= 0]); full-row dot products; [assert!(d > 0.)] on every pivot *)
   Definition matrix_cholesky (m : matrix (T:=T)) : option (matrix (T:=T)) :=
     let* _ := guard (well_formed m) in
     let* _ := guard (matrix_is_positive_definite O m) in
-    Some {| nr := nr m; nc := nc m; dat := flatten (chol_rows true (mrows m) (nc m)) |}.
+    let* L := try_chol_rows true (mrows m) (nc m) in
+    Some {| nr := nr m; nc := nc m; dat := flatten L |}.
 
   (** [Solve<Vector>::cholesky_solve] *)
   Definition matrix_cholesky_solve (m : matrix (T:=T)) (b : list T) : option (list T) :=
